@@ -91,12 +91,27 @@ func genC20(g *Gen, tier string, idx int) *wire.Scenario {
 		return sc
 	}
 	sc.Script = g.c20Script(mode)
+	isearch := false
+	if mode == "emacs" && g.P(12) {
+		// an incremental history search in progress (its match shown in the line, not yet accepted)
+		sc.Env.History = []wire.HistSrc{{Kind: "memory", Name: "h0", Entries: []string{"one", "two words", "three", "bar two"}}}
+		sc.Env.NoDefaultHistory = true
+		sc.Script = []wire.Token{tok("\x12", "reverse-search-history")}
+		for _, r := range Pick(g, []string{"t", "tw", "o", "thr", "bar", "wo"}) {
+			sc.Script = append(sc.Script, tok(string(r), "isearch-char"))
+		}
+		sc.Script = append(sc.Script, tok("\r", "accept-line"))
+		isearch = true
+	}
 	nd := g.Range(1, 3)
 	if g.P(20) {
 		nd = g.Range(4, 6)
 	}
 	plan := wire.Plan{Policy: "seeded", Class: "S0", Seed: g.Seed(), Sites: g.siteSubset(Pick(g, []int{10, 35, 70}))}
-	supported := idx%4 == 0 // only the supported window: while main waits for input
+	supported := idx%4 == 0 || isearch // only the supported window: while main waits for input
+	if isearch {
+		nd = 1
+	}
 	for i := 0; i < nd; i++ {
 		d := wire.Disturb{Kind: Pick(g, c20Kinds), Task: "main", Site: Pick(g, c20MainSites), Nth: g.Range(1, len(sc.Script)+2)}
 		if supported {
